@@ -39,7 +39,9 @@ def blocks(quads):
     return out
 
 
-def check_shape(quads):
+def check_shape(quads, formulas=False):
+    """formulas=True (N3): an anonymous node may be a formula `{ … }`: it names the graph of its inner statements
+    (all consecutive, right after its single outer occurrence as subject or object)."""
     anon = {}
     for idx, q in enumerate(quads):
         for pos, t in enumerate(q):
@@ -50,8 +52,14 @@ def check_shape(quads):
         if idxs != list(range(idxs[0], idxs[-1] + 1)):
             raise ValueError("anonymous node not consecutive")
         if any(pos == 3 for _, pos in occ):
-            if any(pos != 3 for _, pos in occ):
-                raise ValueError("anonymous graph name also used as a node")
+            outer = [(i, pos) for i, pos in occ if pos != 3]
+            if outer:
+                if not formulas:
+                    raise ValueError("anonymous graph name also used as a node")
+                if len(outer) != 1 or outer[0][0] != idxs[0] or outer[0][1] == 1:
+                    raise ValueError("formula: exactly one outer occurrence (subject or object), before its statements")
+            elif formulas:
+                raise ValueError("n3: statements of a formula that occurs nowhere")
             continue
         if len({quads[i][3] for i in idxs}) != 1:
             raise ValueError("anonymous node spans graphs")
@@ -128,8 +136,13 @@ def _ttl_ground(t, style):
     raise ValueError(t)
 
 
-def _ttl_block(qs, style, ind):
-    """statements for one run of quads of one graph"""
+def _ttl_block(qs, style, ind, formulas=None):
+    """statements for one run of quads of one graph; formulas (N3): anonymous node -> its inner statements"""
+    formulas = formulas or {}
+
+    def formula_text(a):
+        return "{ " + " ".join(_ttl_block(formulas[a], style, "", formulas)) + " }"
+
     subj_of = {}
     for q in qs:
         if q[0][0] == "a":
@@ -154,6 +167,8 @@ def _ttl_block(qs, style, ind):
     def obj_text(o):
         if o[0] != "a":
             return _ttl_ground(o, style)
+        if o in formulas:
+            return formula_text(o)
         inner = subj_of.get(o, [])
         if not inner:
             return "[]"
@@ -171,7 +186,7 @@ def _ttl_block(qs, style, ind):
             i += 1
             continue
         s = q[0]
-        if s[0] == "a":
+        if s[0] == "a" and s not in formulas:
             if s in obj_anon:       # written nested inside its object occurrence
                 i += 1
                 continue
@@ -203,7 +218,7 @@ def _ttl_block(qs, style, ind):
                 objs.append(obj_text(group[k][2]))
                 k += 1
             parts.append("%s %s" % (_ttl_ground(p, style), " , ".join(objs)))
-        out.append("%s%s %s ." % (ind, _ttl_ground(s, style), " ; ".join(parts)))
+        out.append("%s%s %s ." % (ind, formula_text(s) if s in formulas else _ttl_ground(s, style), " ; ".join(parts)))
         i += 1
     return out
 
@@ -342,8 +357,13 @@ def write_trix(quads, style):
 # ---------------------------------------------------------------- JSON-LD (expanded form)
 
 
+EMPTY_ID = "@empty"      # pseudo-label: written as "@id": "" under "@base": null (generalized RDF: a per-document stand-in node)
+
+
 def _jl_id(t):
-    return t[1] if t[0] == "i" else "_:" + t[1]
+    if t[0] == "i":
+        return t[1]
+    return "" if t[1] == EMPTY_ID else "_:" + t[1]
 
 
 def _jl_nodes(qs, style):
@@ -399,7 +419,9 @@ def write_jsonld(quads, style):
                 raise ValueError("json-ld: anonymous graph name")
             top.append({"@id": _jl_id(g), "@graph": nodes})
     doc = top
-    if style.get("anonstyle"):
+    if any(t is not None and t[0] == "n" and t[1] == EMPTY_ID for q in quads for t in q):
+        doc = {"@context": {"@base": None}, "@graph": top}
+    elif style.get("anonstyle"):
         doc = {"@context": {}, "@graph": top}
     return json.dumps(doc, indent=1 if style.get("group") else None)
 
@@ -429,7 +451,16 @@ def write_hext(quads, style):
 
 
 def write_n3(quads, style):
-    return write_turtle(quads, {**style, "sparqlprefix": False})      # N3 has no SPARQL-style PREFIX
+    style = {**style, "sparqlprefix": False}      # N3 has no SPARQL-style PREFIX
+    top, formulas = [], {}
+    for q in quads:
+        if q[3] is None:
+            top.append(q)
+        elif q[3][0] == "a":
+            formulas.setdefault(q[3], []).append(q)     # a statement inside the formula { … } that this node stands for
+        else:
+            raise ValueError("n3: named graph")
+    return "\n".join(_ttl_head(style) + _ttl_block(top, style, "", formulas)) + "\n"
 
 
 WRITERS = {"nt": write_nt, "nquads": write_nquads, "turtle": write_turtle, "n3": write_n3, "trig": write_trig,
@@ -437,5 +468,5 @@ WRITERS = {"nt": write_nt, "nquads": write_nquads, "turtle": write_turtle, "n3":
 
 
 def write(fmt, quads, style):
-    check_shape(quads)
+    check_shape(quads, formulas=(fmt == "n3"))
     return WRITERS[fmt](quads, style)
